@@ -123,6 +123,20 @@ def run(ctx):
     ctx.check(not (supv & forb), "C13-a", SID + "is_supported", "no supported identifier is HTTP/2-reserved", "overlap: %s" % sorted(supv & forb), "")
     ctx.check(consts.get(SID + "MAX_HEADER_LIST_SIZE") == REG["settings"]["MAX_FIELD_SECTION_SIZE"], "C13-a", SID + "MAX_HEADER_LIST_SIZE",
               "SETTINGS_MAX_FIELD_SECTION_SIZE = 0x6", "value %s" % consts.get(SID + "MAX_HEADER_LIST_SIZE"), "6")
+    # every identifier h3 knows is the registered number (RFC 9114 7.2.4.1, RFC 9204 5, RFC 8441, RFC 9297, draft-ietf-webtrans-http3-02)
+    for nm, want in (("QPACK_MAX_TABLE_CAPACITY", REG["qpack"]["settings"]["QPACK_MAX_TABLE_CAPACITY"] if "settings" in REG["qpack"] else 1),
+                     ("QPACK_MAX_BLOCKED_STREAMS", REG["qpack"]["settings"]["QPACK_BLOCKED_STREAMS"] if "settings" in REG["qpack"] else 7),
+                     ("ENABLE_CONNECT_PROTOCOL", REG["extensions"]["SETTINGS_ENABLE_CONNECT_PROTOCOL"]),
+                     ("H3_DATAGRAM", REG["extensions"]["SETTINGS_H3_DATAGRAM"]),
+                     ("ENABLE_WEBTRANSPORT", REG["extensions"]["SETTINGS_ENABLE_WEBTRANSPORT_draft02"]),
+                     ("WEBTRANSPORT_MAX_SESSIONS", REG["extensions"]["SETTINGS_WEBTRANSPORT_MAX_SESSIONS"])):
+        got = consts.get(SID + nm)
+        if got is None:
+            ctx.missing("C13-a", SID + nm)
+            continue
+        ctx.check(got == want, "C13-a", SID + nm, "= 0x%x (registered identifier)" % want,
+                  "SettingId::%s is 0x%x, the registered identifier is 0x%x: the setting is announced to, and read from, the peer under another "
+                  "setting's number" % (nm, got, want), "0x%x" % got)
     greaseform = [n for n, v in sup if v % 0x1f == 0x21 % 0x1f] + [v for v in forb if v % 0x1f == 0x21 % 0x1f and v >= 0x21]
     ctx.check(not greaseform, "C13-a", SID + "grease", "no real identifier has the reserved 0x1f*N+0x21 form",
               "identifiers %s are themselves of the grease form: the random grease entry could collide with them and make the SETTINGS "
